@@ -1,4 +1,4 @@
-import SuxModel.RCL.LemmasRead
+import SuxModel.RCL.LemmasSorted
 /-!
 # C09 — a rear-coded list returns exactly the strings pushed and finds them by value
 
@@ -30,6 +30,16 @@ theorem encode_len (v : Nat) (hv : v < 2 ^ 63 + UB8) :
 /-- … and its loop never exits from there on (`max <<= 7` has reached `0`) -/
 theorem encode_len_diverges (v : Nat) (hv : 2 ^ 63 + UB8 ≤ v) : encodeIntLen v = .panic :=
   encodeIntLen_diverges v hv
+
+/-- the `debug_assert!`s inside `encode_int` can never fire -/
+theorem encode_debug_asserts (v : Nat) :
+    (UB1 ≤ v → v < UB2 → (v - UB1) >>> 8 < 1 <<< 6) ∧
+    (UB2 ≤ v → v < UB3 → (v - UB2) >>> 16 < 1 <<< 5) ∧
+    (UB3 ≤ v → v < UB4 → (v - UB3) >>> 24 < 1 <<< 4) ∧
+    (UB4 ≤ v → v < UB5 → (v - UB4) >>> 32 < 1 <<< 3) ∧
+    (UB5 ≤ v → v < UB6 → (v - UB5) >>> 40 < 1 <<< 2) ∧
+    (UB6 ≤ v → v < UB7 → (v - UB6) >>> 48 < 1 <<< 1) :=
+  encodeInt_asserts v
 
 example : decodeInt (encodeInt 16512 ++ [7, 7]) = .ok (16512, [7, 7]) :=
   decode_encode 16512 (by decide) [7, 7]
@@ -83,5 +93,161 @@ theorem rcl_into_lender (k : Nat) (hk : 0 < k) (strs : List (List Nat)) (hn : Nu
     (hlen : LenOK strs) (l : RCL) (hb : build k strs = .ok l) :
     drain l (l.len + 1) (Lend.new l) = .ok (countdown strs.length, strs) :=
   intoLender_spec (built_of_build hk hlen hb) hn hlen
+
+/-! ## search by value -/
+
+/-- the `is_sorted` flag of the built list says exactly that the input was sorted bytewise -/
+theorem rcl_is_sorted (k : Nat) (hk : 0 < k) (strs : List (List Nat)) (hlen : LenOK strs)
+    (l : RCL) (hb : build k strs = .ok l) : l.isSorted = true ↔ Sorted strs := by
+  rw [(built_of_build hk hlen hb).sorted_eq, adjSorted_nil_iff]
+
+/-- `index_of(key)` returns an index holding `key` exactly when `key` was pushed.
+Hypothesis `0 ∉ key ∨ ¬ Sorted strs`: on *sorted* input a key containing NUL can compare equal
+to a block head followed by its terminator and the next bytes (see `nul_probe_false_positive`
+below), so the binary-search path needs a NUL-free key; the scan path does not. -/
+theorem rcl_index_of (k : Nat) (hk : 0 < k) (strs : List (List Nat)) (hn : NulFree strs)
+    (hlen : LenOK strs) (l : RCL) (hb : build k strs = .ok l) (key : List Nat)
+    (hkey : 0 ∉ key ∨ ¬ Sorted strs) :
+    ∃ o, indexOf l key = .ok o ∧
+      (∀ i, o = some i → ∃ hi : i < strs.length, strs[i] = key) ∧
+      (o = none ↔ key ∉ strs) :=
+  indexOf_spec (built_of_build hk hlen hb) hn hlen key hkey
+
+/-- unsorted input: `index_of` is the linear scan and returns the *first* position of `key`
+(any key, NUL bytes included) -/
+theorem rcl_index_of_unsorted (k : Nat) (hk : 0 < k) (strs : List (List Nat)) (hn : NulFree strs)
+    (hlen : LenOK strs) (l : RCL) (hb : build k strs = .ok l) (hs : ¬ Sorted strs)
+    (key : List Nat) : indexOf l key = .ok (firstIdx key strs 0) := by
+  have h := built_of_build hk hlen hb
+  have hf : ¬ l.isSorted = true := fun e => hs ((rcl_is_sorted k hk strs hlen l hb).1 e)
+  rw [indexOf, if_neg hf, indexOfUnsorted_spec h hn hlen key]
+
+/-- sorted input, the part of `index_of_sorted` that follows the binary search, for **any**
+result `r` of `binary_search_by` that satisfies its documented contract (`BSContract`):
+`Ok(b)` only for a block whose head equals the key, `Err(e)` only at the insertion point.
+No condition on the key here. -/
+theorem rcl_index_of_sorted_contract (k : Nat) (hk : 0 < k) (strs : List (List Nat))
+    (hn : NulFree strs) (hlen : LenOK strs) (l : RCL) (hb : build k strs = .ok l)
+    (hs : Sorted strs) (key : List Nat) (r : SearchRes)
+    (hr : BSContract (headOrd k strs key) l.pointers.size r) :
+    ∃ o, indexOfSortedAfter l key r = .ok o ∧
+      (∀ i, o = some i → ∃ hi : i < strs.length, strs[i] = key) ∧
+      (o = none ↔ key ∉ strs) := by
+  obtain ⟨o, h1, h2, h3⟩ :=
+    indexOfSortedAfter_spec (built_of_build hk hlen hb) hn hlen hs key r hr
+  refine ⟨o, h1, h2, h3, fun hnm => ?_⟩
+  cases o with
+  | none => rfl
+  | some i =>
+    obtain ⟨hi, he⟩ := h2 i rfl
+    exact absurd (he ▸ List.getElem_mem hi) hnm
+
+/-- … and the binary search of the core library, run with the comparator closure of
+`index_of_sorted` on the block pointers, returns without panic / out-of-bounds access and
+satisfies that contract (NUL-free key) -/
+theorem rcl_binary_search_contract (k : Nat) (hk : 0 < k) (strs : List (List Nat))
+    (hn : NulFree strs) (hlen : LenOK strs) (l : RCL) (hb : build k strs = .ok l)
+    (hs : Sorted strs) (key : List Nat) (hkey : 0 ∉ key) :
+    ∃ r, binarySearchBy (headCmp l key) l.pointers = .ok r ∧
+      BSContract (headOrd k strs key) l.pointers.size r :=
+  have h := built_of_build hk hlen hb
+  binarySearchBy_spec (headCmp l key) l.pointers (headOrd k strs key)
+    (fun i hi => headCmp_spec h hn key hkey i hi) (headOrd_mono h hs key)
+
+/-- the only unchecked accesses of the whole file are inside `binary_search_by`; they are in
+range for **every** slice and **every** comparator (so also for keys with NUL bytes and for
+unsorted data) -/
+theorem rcl_binary_search_no_oob (f : Nat → Out Ordering) (xs : Array Nat)
+    (hf : ∀ x, f x ≠ .oob) : binarySearchBy f xs ≠ .oob :=
+  binarySearchBy_no_oob f xs hf
+
+/-- `contains` is `index_of(..).is_some()` (by definition) and therefore decides membership -/
+theorem rcl_contains (k : Nat) (hk : 0 < k) (strs : List (List Nat)) (hn : NulFree strs)
+    (hlen : LenOK strs) (l : RCL) (hb : build k strs = .ok l) (key : List Nat)
+    (hkey : 0 ∉ key ∨ ¬ Sorted strs) :
+    (contains l key = (indexOf l key >>= fun o => pure o.isSome)) ∧
+    contains l key = .ok (decide (key ∈ strs)) := by
+  refine ⟨rfl, ?_⟩
+  obtain ⟨o, h1, _, h3⟩ := rcl_index_of k hk strs hn hlen l hb key hkey
+  rw [contains, h1]
+  simp only [bind, Out.bind, pure]
+  congr 1
+  cases o with
+  | none => simp [h3.1 rfl]
+  | some i =>
+    have : key ∈ strs := Classical.byContradiction fun hnm => by cases h3.2 hnm
+    simp [this]
+
+/-! ## why `rcl_index_of` needs a NUL-free key on sorted input (finding)
+
+`strcmp(string, data)` walks `data` as far as `string` is long; a `0` inside `string` matches the
+terminator of a block head and the comparison continues into the *next* stored entry. -/
+
+theorem nulProbe_build :
+    build 1 [[97], [98]] = .ok ⟨1, 2, true, [97, 0, 98, 0], #[0, 2]⟩ := by decide
+
+/-- list `["a", "b"]`, `k = 1`: `index_of("a\0b")` answers `Some(0)` although the string was
+never pushed (and `"a" ≠ "a\0b"`) -/
+theorem nul_probe_false_positive :
+    ∃ l, build 1 [[97], [98]] = .ok l ∧ indexOf l [97, 0, 98] = .ok (some 0) := by
+  refine ⟨_, nulProbe_build, ?_⟩
+  simp [indexOf, indexOfSorted, binarySearchBy, bsLoop, headCmp, Out.readU, sliceFrom, strcmp,
+    strcmpGo, ordNat, indexOfSortedAfter, bind, Out.bind]
+
+/-- same list: `index_of("b\0\0x")` panics (safe indexing past the end of `data`) -/
+theorem nul_probe_panic :
+    ∃ l, build 1 [[97], [98]] = .ok l ∧ indexOf l [98, 0, 0, 120] = .panic := by
+  refine ⟨_, nulProbe_build, ?_⟩
+  simp [indexOf, indexOfSorted, binarySearchBy, bsLoop, headCmp, Out.readU, sliceFrom, strcmp,
+    strcmpGo, ordNat, bind, Out.bind]
+
+/-! ## non-vacuity: the documentation example of the crate (`k = 4`) and an unsorted list -/
+
+def exStrs : List (List Nat) :=
+  [[97, 97], [97, 97, 98], [97, 98, 99], [97, 98, 100, 100], [97, 98, 100, 101], [97, 98, 100, 102]]
+
+theorem exStrs_nulFree : NulFree exStrs := by unfold NulFree exStrs; decide
+theorem exStrs_lenOK : LenOK exStrs := by unfold LenOK exStrs; decide
+theorem exStrs_sorted : Sorted exStrs := (adjSorted_nil_iff exStrs).1 (by decide)
+
+example : ∃ l, build 4 exStrs = .ok l ∧ l.len = 6 := rcl_build 4 (by decide) exStrs exStrs_lenOK
+
+example (l : RCL) (hb : build 4 exStrs = .ok l) : get l 4 = .ok [97, 98, 100, 101] :=
+  (rcl_get 4 (by decide) exStrs exStrs_nulFree exStrs_lenOK l hb 4 (by decide)).1
+
+example (l : RCL) (hb : build 4 exStrs = .ok l) : get l 6 = .panic :=
+  rcl_get_panic 4 (by decide) exStrs exStrs_lenOK l hb 6 (by decide)
+
+example (l : RCL) (hb : build 4 exStrs = .ok l) :
+    iterFrom l 4 = .ok ([2, 1, 0], [[97, 98, 100, 101], [97, 98, 100, 102]]) :=
+  rcl_iter_from 4 (by decide) exStrs exStrs_nulFree exStrs_lenOK l hb 4
+
+/-- `iter_from(len)` with `len` a multiple of `k` (the start position that used to index past
+`pointers`) -/
+example (l : RCL) (hb : build 3 exStrs = .ok l) : iterFrom l 6 = .ok ([0], []) :=
+  rcl_iter_from 3 (by decide) exStrs exStrs_nulFree exStrs_lenOK l hb 6
+
+example (l : RCL) (hb : build 4 exStrs = .ok l) : l.isSorted = true :=
+  (rcl_is_sorted 4 (by decide) exStrs exStrs_lenOK l hb).2 exStrs_sorted
+
+example (l : RCL) (hb : build 4 exStrs = .ok l) : contains l [97, 98, 100] = .ok false :=
+  (rcl_contains 4 (by decide) exStrs exStrs_nulFree exStrs_lenOK l hb [97, 98, 100]
+    (Or.inl (by decide))).2
+
+example (l : RCL) (hb : build 4 exStrs = .ok l) :
+    ∃ o, indexOf l [97, 98, 99] = .ok o ∧
+      (∀ i, o = some i → ∃ hi : i < exStrs.length, exStrs[i] = [97, 98, 99]) ∧
+      (o = none ↔ [97, 98, 99] ∉ exStrs) :=
+  rcl_index_of 4 (by decide) exStrs exStrs_nulFree exStrs_lenOK l hb _ (Or.inl (by decide))
+
+def exUnsorted : List (List Nat) := [[98], [97], [98]]
+
+theorem exUnsorted_not_sorted : ¬ Sorted exUnsorted := fun h => by
+  have := (adjSorted_nil_iff exUnsorted).2 h
+  revert this; decide
+
+example (l : RCL) (hb : build 2 exUnsorted = .ok l) : indexOf l [98] = .ok (some 0) :=
+  rcl_index_of_unsorted 2 (by decide) exUnsorted (by unfold NulFree exUnsorted; decide)
+    (by unfold LenOK exUnsorted; decide) l hb exUnsorted_not_sorted [98]
 
 end Sux.RCL
